@@ -191,7 +191,11 @@ def main(argv=None):
     for r in results:
         label = r["label"]
         if r.get("error"):
-            failures.append(f"{label}: {r['error']}")
+            if str(r["error"]).startswith("target not found"):
+                # the function under contract was renamed or removed: its obligations cannot be generated (undecided)
+                undecided.append(f"{label}: {r['error']} - the contract no longer has a function to apply to")
+            else:
+                failures.append(f"{label}: {r['error']}")
             continue
         if r["kind"] == "canary":
             ok = any(o["status"] == "sat" for o in r["obligations"].values())
